@@ -47,6 +47,7 @@ type c05inst struct {
 	running      int
 	order        []int // accepted, in order
 	started      []int
+	sendIn       map[int]string // message -> pattern of the send its handler waits in (op sendin)
 }
 
 type c05run struct {
@@ -109,8 +110,11 @@ func (r *c05run) prepare(rec *fix.Rec) {
 		r.events = append(r.events, c05event{"enter", i, d.Items[0].V})
 		r.cond.Broadcast()
 		gate := in.gate
+		pattern, inSend := in.sendIn[d.Items[0].V]
 		r.mu.Unlock()
-		if r.gated {
+		if r.gated && inSend {
+			c05sendIn(rec.Tni, d.Items[0].V, pattern, gate)
+		} else if r.gated {
 			<-gate
 		} else if d.Items[0].V%3 == 0 {
 			runtime.Gosched()
@@ -175,7 +179,7 @@ func c05exec(c *h.Ctx, cs *h.Case) {
 	// three instances, or as many as the ops name (class script-many: dozens of instances on one server)
 	nInst := 3
 	for _, op := range cs.Ops {
-		if tk := strings.Fields(op); len(tk) >= 3 && (tk[1] == "accept" || tk[1] == "self" || tk[1] == "late" || tk[1] == "exit" || tk[1] == "close" || tk[1] == "rereg") {
+		if tk := strings.Fields(op); len(tk) >= 3 && (tk[1] == "accept" || tk[1] == "sendin" || tk[1] == "self" || tk[1] == "late" || tk[1] == "exit" || tk[1] == "close" || tk[1] == "rereg") {
 			if i, err := strconv.Atoi(tk[2]); err == nil && i >= nInst && i < 4096 {
 				nInst = i + 1
 			}
@@ -266,8 +270,21 @@ func c05exec(c *h.Ctx, cs *h.Case) {
 			continue
 		}
 		switch tk[1] {
-		case "accept", "self", "late":
+		case "accept", "self", "late", "sendin":
+			if tk[1] == "sendin" && (len(tk) != 5 || !c05sendPatterns[tk[4]]) {
+				cs.Impl = append(cs.Impl, "bad-op")
+				continue
+			}
 			m, _ := strconv.Atoi(tk[3])
+			if tk[1] == "sendin" {
+				r.mu.Lock()
+				if in.sendIn == nil {
+					in.sendIn = map[int]string{}
+				}
+				in.sendIn[m] = tk[4]
+				r.mu.Unlock()
+				c.Count("op=sendin " + tk[4])
+			}
 			r.mu.Lock()
 			expectEnter := !in.closed && in.entered == in.exited
 			want := in.entered + 1
@@ -389,7 +406,18 @@ func c05exec(c *h.Ctx, cs *h.Case) {
 				cs.Impl = append(cs.Impl, "no-instance")
 				continue
 			}
-			in.rec.Tni.Done()
+			// Done() only closes the dispatch and unlists the instance: it must come back whatever the handlers of
+			// the instance are doing (a Done() that ran handlers itself would be a second dispatcher: the enter hook
+			// reports the overlap and then waits at the gate, in this routine)
+			doneCh := make(chan struct{})
+			go func() { in.rec.Tni.Done(); close(doneCh) }()
+			select {
+			case <-doneCh:
+			case <-time.After(5 * time.Second):
+				cs.Impl = append(cs.Impl, "hang")
+				cs.Fail("done-blocked", fmt.Sprintf("Done() of instance %d did not return within 5 s (%s)", i, state(i)))
+				return
+			}
 			r.mu.Lock()
 			in.closed = true
 			in.doneReturned = true
@@ -492,6 +520,13 @@ func c05gen(c *h.Ctx, yield func(*h.Case)) {
 		"c05 accept 0 1", "c05 rereg 0", "c05 accept 0 2", "c05 accept 0 3", "c05 rereg 0", "c05 accept 0 4", "c05 exit 0", "c05 exit 0",
 		"c05 accept 1 5", "c05 rereg 1", "c05 exit 1", "c05 rereg 1", "c05 accept 1 6", "c05 accept 1 7", "c05 accept 1 8", "c05 exit 0", "c05 exit 0",
 		"c05 exit 1", "c05 exit 1", "c05 exit 1", "c05 close 0", "c05 rereg 0", "c05 rereg 2"}})
+	// a handler that is slow inside a send to several nodes (the first encoding of the value waits): further
+	// messages for the instance are taken and the other instances keep receiving
+	for _, p := range []string{"children", "bcast", "multi", "par"} {
+		yield(&h.Case{Class: "script-corpus", Ops: []string{
+			"c05 sendin 0 1 " + p, "c05 accept 0 2", "c05 accept 1 3", "c05 accept 0 4", "c05 exit 1", "c05 accept 2 5", "c05 exit 0", "c05 exit 0",
+			"c05 exit 0", "c05 exit 2"}})
+	}
 	// a handler that stays blocked for a long time (longer than any plausible internal time limit)
 	yield(&h.Case{Class: "script-long-block", Ops: []string{"c05 accept 0 1", "c05 accept 0 2", "c05 accept 1 3", "c05 sleep 10600",
 		"c05 accept 0 4", "c05 exit 1", "c05 exit 0", "c05 exit 0", "c05 exit 0"}})
@@ -543,6 +578,8 @@ func c05gen(c *h.Ctx, yield func(*h.Case)) {
 				if created[i] && !closed[i] && r.Intn(4) == 0 {
 					cs.Ops = append(cs.Ops, fmt.Sprintf("c05 self %d %d", i, m))
 					c.Count("op=self")
+				} else if r.Intn(6) == 0 {
+					cs.Ops = append(cs.Ops, fmt.Sprintf("c05 sendin %d %d %s", i, m, []string{"children", "par", "bcast", "multi", "parent"}[r.Intn(5)]))
 				} else {
 					cs.Ops = append(cs.Ops, fmt.Sprintf("c05 accept %d %d", i, m))
 				}
